@@ -220,6 +220,7 @@ PROPS = {
             {"name": "lin-hail", "quick": 10000, "thorough": 500000, "thorough_time": 40},
             {"name": "lin-delta", "quick": 10000, "thorough": 500000, "thorough_time": 40},
             {"name": "lin-waste", "quick": 4000, "thorough": 100000, "thorough_time": 40},
+            {"name": "lin-meta", "quick": 20000, "thorough": 1000000, "thorough_time": 60},
             {"name": "lin-elec", "quick": 20000, "thorough": 1000000, "thorough_time": 60, "extra": ["-sim.only=clear-active,delete-absent,deadlock,caller-stuck,panic,internal-panic"]},
             {"name": "lin-servers", "quick": 20000, "thorough": 1000000, "thorough_time": 80},
         ],
